@@ -36,3 +36,13 @@ func (nd *KVNode) VerifSyncStore() *KVStore {
 	}
 	return nil
 }
+
+// VerifCkptSMStore returns the key-value store behind a kv state machine (nil otherwise), so
+// that a driver can apply entries to it while it takes snapshots through
+// StateMachine.GetSnapshot.
+func VerifCkptSMStore(sm StateMachine) *KVStore {
+	if k, ok := sm.(*kvStoreSM); ok {
+		return k.store
+	}
+	return nil
+}
